@@ -50,6 +50,9 @@ func checkC03(c *Ctx) {
 	c.Rule("C03-R13", "ESC immediately followed by a key yields that key with Alt, also when the scan runs because the wait expired: the Esc key event itself is built only where the buffer is known to hold the one byte")
 	c.Expect("C03-R13", 1)
 	checkBareEscOnlyForLoneEsc(c, p, "C03-R13")
+	c.Rule("C03-R14", "a key sequence that keeps arriving decodes to its key however many reads it takes: every re-arming of the escape timer is for the constant wait, counted from the chunk just read (a remaining time counted from the first pending byte runs out in the middle of a slow sequence)")
+	c.Expect("C03-R14", 1)
+	checkEscapeWaitPerChunk(c, p, "C03-R14")
 	c.Rule("C03-R11", "every entry is found under its name and under each of its aliases as written: AddTerminfo files the entry under both, keyed by the strings themselves (a key folded on one side only loses X-hpterm, the one alias that is not lower case)")
 	c.Expect("C03-R11", 2)
 	c.asRule("C14-R6", "C03-R11", func() { c14Registry(c, p) })
